@@ -23,10 +23,11 @@ const (
 	opUG        // unprotect a genuine message from a fresh peer
 	opUT        // unprotect a tampered / truncated / garbage message
 	opDC        // derive a Child SA
+	opRT        // the last accepted genuine datagram arrives again, bit for bit (retransmission)
 	nOps
 )
 
-var opNames = []string{"protectI", "protectR", "unprotGenuine", "unprotForged", "deriveChild"}
+var opNames = []string{"protectI", "protectR", "unprotGenuine", "unprotForged", "deriveChild", "retransmission"}
 
 type stepResult struct {
 	wire   []byte   // protect
@@ -158,12 +159,16 @@ func c17History(k *core.Case) {
 	prev2 := -1
 	var lastAcc []byte // the last genuine datagram the long-lived object accepted
 	var lastAccInit bool
+	var lastAccMsg *abs.Msg
 	for st := 0; st < n; st++ {
 		op := k.R.Intn(nOps)
 		if prev == opUT && k.R.Chance(2, 3) {
 			op = k.R.Pick(opPI, opPR, opUG, opDC) // a rejected forgery immediately before a genuine operation
 		} else if k.R.Chance(1, 3) {
 			op = opUT
+		}
+		if op == opRT && lastAcc == nil {
+			op = opUG
 		}
 		hist = append(hist, opNames[op])
 		seed := k.R.U64()
@@ -178,6 +183,8 @@ func c17History(k *core.Case) {
 		switch op {
 		case opPI, opPR:
 			m = gen.Msg(k.R, gen.Opt{Protected: true, MaxPayloads: 3, AllowEmpty: true})
+		case opRT:
+			m, presented, recvInit = lastAccMsg, append([]byte{}, lastAcc...), lastAccInit
 		case opUG, opUT:
 			m = gen.Msg(k.R, gen.Opt{Protected: true, MaxPayloads: 3, AllowEmpty: true})
 			peer, _ := libsa.NewKey(raw)
@@ -249,7 +256,7 @@ func c17History(k *core.Case) {
 					if p != nil {
 						r.panicS = p.Sig()
 					}
-				case opUG, opUT:
+				case opUG, opUT, opRT:
 					d, err, p := libUnprotect(append([]byte{}, presented...), k.Index%2 == 0, key, recvInit)
 					r.msg, r.err = d, err != nil
 					if p != nil {
@@ -304,12 +311,12 @@ func c17History(k *core.Case) {
 				k.Violate("history-dependence", "fresh-peer-rejects-long-lived-output", fmt.Sprint(derr, dp), w)
 				return
 			}
-		case opUG:
+		case opUG, opRT:
 			if rl.err || !abs.Equal(m, rl.msg) {
-				k.Violate("history-dependence", "genuine-rejected-by-long-lived", "genuine message from a fresh peer not accepted / differs", w)
+				k.Violate("history-dependence", "genuine-rejected-by-long-lived", "genuine message from a fresh peer ("+opNames[op]+") not accepted / differs", w)
 				return
 			}
-			lastAcc, lastAccInit = append([]byte{}, presented...), recvInit
+			lastAcc, lastAccInit, lastAccMsg = append([]byte{}, presented...), recvInit, m
 		case opUT:
 			if !rl.err && len(presented) > 16 && presented[16] == abs.PSK && !bytes.Equal(presented, nil) {
 				k.Violate("accepted", "forged-accepted-by-long-lived", "forged message accepted", w)
